@@ -224,6 +224,20 @@ func checkRedact(c Case) error {
 		if again := urlutil.RedactUserinfo(r1); again.String() != r1.String() || again.User == nil || again.User.String() != mask {
 			return fmt.Errorf("RedactUserinfo of an already redacted URL gives %q, want %q", again.String(), r1.String())
 		}
+		// Results are the caller's: editing one of them (any of several
+		// obtained for the same URL value) must not change what later calls
+		// return (a result is a private clone, not a view of shared state).
+		ra, rb := urlutil.RedactUserinfo(&u1), urlutil.RedactUserinfo(&u1)
+		ra.Path, ra.User, ra.Host = "/edited-by-the-caller", url.UserPassword("bob", "hunter2"), "edited.example"
+		rb.Fragment, rb.User, rb.RawQuery = "edited", nil, "edited=1"
+		if rc := urlutil.RedactUserinfo(&u1); rc.String() != r1.String() || rc.User == nil || rc.User.String() != mask {
+			return fmt.Errorf("RedactUserinfo returned %q after the caller had edited two earlier results for the same URL value; the first call had returned %q", rc.String(), r1.String())
+		}
+		ueEd := &url.Error{Op: "Get", URL: u1.String(), Err: inner}
+		urlutil.RedactUserinfoInURLError(&u1, ueEd)
+		if ueEd.URL != r1.String() {
+			return fmt.Errorf("RedactUserinfoInURLError wrote %q after the caller had edited earlier RedactUserinfo results; want %q", ueEd.URL, r1.String())
+		}
 		// The same *url.URL value used again after its caller changed other
 		// fields in place (a long-lived upstream URL whose path is rewritten
 		// per request): the text must describe the URL as it is now.
